@@ -728,10 +728,18 @@ NGRID = 6
 
 def jobs(tier):
     th = tier == "thorough"
-    js = [{"kind": "history", "shard": i, "n": 3000 if th else 200} for i in range(NSEQ)]
-    js += [{"kind": "read", "shard": i, "n": 6000 if th else 400} for i in range(NREAD)]
-    js += [{"kind": "grid", "shard": i, "step": 1 if th else 60} for i in range(NGRID)]
-    return js
+    hist = [{"kind": "history", "shard": i, "n": 3000 if th else 200} for i in range(NSEQ)]
+    read = [{"kind": "read", "shard": i, "n": 6000 if th else 400} for i in range(NREAD)]
+    grid = [{"kind": "grid", "shard": i, "step": 1 if th else 60} for i in range(NGRID)]
+    # "_i" only fixes the order in which results are merged (evidence samples then show all three
+    # kinds); the long history jobs stay first in the list so that they are scheduled first
+    for j, job in enumerate(hist):
+        job["_i"] = "%02d" % (3 * j if j < NREAD else 2 * NREAD + j)
+    for j, job in enumerate(read):
+        job["_i"] = "%02d" % (3 * j + 1)
+    for j, job in enumerate(grid):
+        job["_i"] = "%02d" % (3 * j + 2)
+    return hist + read + grid
 
 
 def _norm_case(case):
@@ -745,6 +753,7 @@ def _norm_case(case):
 def run_job(job, seed, tier, rec, known):
     S.schema()
     history, readcase = strategies()
+    rec.MAX_SAMPLES = 1
     k = job["kind"]
     if k == "history":
         def fn(case):
